@@ -5,3 +5,11 @@ import Spydr.Compare.Props.C20
 #print axioms Spydr.Compare.C20.compare_sound_contrapositive
 #print axioms Spydr.Compare.C20.examinedEqB_iff
 #print axioms Spydr.Compare.C20.unrepaired_accepts_moved_pin
+#print axioms Spydr.Compare.C20.mutation_port_raises
+#print axioms Spydr.Compare.C20.mutation_cable_width_raises
+#print axioms Spydr.Compare.C20.mutation_move_connection_raises
+#print axioms Spydr.Compare.C20.mutation_repoint_raises
+#print axioms Spydr.Compare.C20.mutation_property_raises
+#print axioms Spydr.Compare.C20.mutation_element_count_raises
+#print axioms Spydr.Compare.C20.mutation_definition_count_raises
+#print axioms Spydr.Compare.C20.mutation_library_count_raises
